@@ -28,12 +28,16 @@ class Top(Elaboratable):
         self.reset_less = False    # ... and that domain has no reset at all (only in cases without a warm reset)
         self.unclocked = ()        # names of purely combinational DUTs that are given a domain whose clock never ticks
         self.rst = Signal(name="vmon_rst")      # synchronous reset of the whole design, pulsed by benches that model it
+        self.sim_reset = False
 
     def elaborate(self, platform):
         m = Module()
         m.d.sync += self.ctr.eq(self.ctr + 1)
-        from amaranth import ResetSignal
-        m.d.comb += ResetSignal("sync").eq(self.rst)
+        if self.sim_reset:
+            # only under simulate(): when the design is converted with explicit ports (C19) the domain's reset stays
+            # the top-level input it is by default
+            from amaranth import ResetSignal
+            m.d.comb += ResetSignal("sync").eq(self.rst)
         wrap = lambda sub: sub
         if self.rename:
             # what a SoC with several clock domains does with every peripheral: DomainRenamer. The renamed domain
@@ -144,6 +148,8 @@ def simulate(top, bench, mon=None):
     import zlib
     global CURRENT_TOP
     CURRENT_TOP = top
+    if isinstance(top, Top):
+        top.sim_reset = True
     if isinstance(top, Top) and (zlib.crc32(("dom:" + CURRENT_CASE_SEED).encode()) % 6 == 0 or os.environ.get("VMON_FORCE_RENAME")):
         top.rename = True
         if mon is not None:
